@@ -217,6 +217,20 @@ claim("C15", "other",
       "decision-table extraction from MIR + evaluation of extracted string predicates on an exhaustive small-string domain + inventories",
       "DESIGN.md §3 C15")
 
+claim("C07", "other",
+      "Structure decided statically, byte bound modulo a stated compression assumption: the extracted linear form of the "
+      "announced SYN-ACK/ACK length with delta length = the extracted budget term never exceeds 65,507 for any digest length "
+      "(and the reserved digest is the one sent); every op reaches the stream writer only through try_add_op, whose extracted "
+      "table appends only if the upper bound <= mtu and refuses only within 8 bytes of it; the bound's formula equals out + "
+      "open + item + 3 + 1 (+3 across a block boundary) and its overhead constants equal what flush_block/finish write; "
+      "key-values come from the offered copy above the start version, sorted by version, only under their own accepted "
+      "header; after the first refusal nothing else is added; excluded members are never offered.",
+      "Real compressed sizes cannot be decided statically: assumes an appended item crosses at most one block boundary or "
+      "that closed blocks compress enough to pay for their headers, and that zstd writes at most the destination length. "
+      "'Exactly the sender's entries' relies on BTreeMap iteration and sort semantics.",
+      "linear-form extraction from MIR + grid evaluation of extracted admission/bound tables + who-may-call + event-order rules",
+      "DESIGN.md §3 C07")
+
 ALL = ["C%02d" % i for i in range(1, 21)]
 PENDING_REASON = "check under construction in this session (rules designed in DESIGN.md §3, not yet armed)"
 
